@@ -5,6 +5,7 @@
 TIER="${1:-quick}"
 cd /verif || exit 2
 [ -z "$(git -C /repo status --short)" ] || { echo "/repo is not clean"; exit 2; }
+EVBAK=$(mktemp -d); cp evidence/*.json "$EVBAK"/   # the evidence of seeded runs must not replace the clean-tree evidence
 for D in seeded/*/; do
   SID=$(basename "$D")
   PROP=$(echo "$SID" | cut -d- -f1)
@@ -17,4 +18,5 @@ for D in seeded/*/; do
   elif [ "$N" -gt 0 ]; then echo "$SID: DETECTED, tie/proof only (no-failing-input-found)";
   else echo "$SID: MISSED"; fi
 done
+cp "$EVBAK"/*.json evidence/; rm -rf "$EVBAK"
 [ -z "$(git -C /repo status --short)" ] && echo "/repo clean"
